@@ -3,12 +3,14 @@ import LopdfModel.Model.Queries
   C13 — models of `get_named_destinations` (src/destinations.rs), `get_outline`,
   `build_outline_result`, `get_outlines` (src/outlines.rs) and `get_toc` (src/toc.rs).
 
-  `get_named_destinations` recurses over `Kids`, `get_outlines` recurses over `First` and loops
-  over `Next` — none of them has a guard in the code (no visited set, no depth or iteration
-  limit). They are therefore defined with EXPLICIT FUEL; `none` = fuel exhausted. The theorems of
-  `Thm/C13.lean` show that cyclic documents exhaust every fuel.
+  `get_named_destinations` recurses over `Kids` and `get_outlines` recurses over `First` without
+  any guard in the code (no visited set, no depth limit): these two recursions carry EXPLICIT
+  FUEL; `none` = fuel exhausted, and `Thm/C13.lean` shows that cyclic documents exhaust every fuel.
+  The `loop` of `get_outlines` over `Next` is guarded by the `seen_next` set since 79a3229: it is
+  defined WITHOUT fuel, by well-founded recursion on (objects not yet in `seen_next`, size of an
+  inline `Next` dictionary).
 -/
-namespace Lopdf
+namespace Lopdf.Q13
 open Gen
 
 /-- `IndexMap<Vec<u8>, Destination>`: key ↦ `.dict <Title, Page, Type>` in insertion order -/
@@ -20,37 +22,32 @@ def mkDest (title page typ : Obj) : Dict :=
 
 /-! ### get_named_destinations -/
 
-/-- `Destination::new(key.clone(), val[0].clone(), val[1].clone())` followed by
-`named.insert(key.as_str().unwrap().to_vec(), dest)` -/
-def insertDest (sIdx sKey : String) (key : Obj) (val : List Obj) (named : Named) : Outcome Named :=
-  match val with
-  | [] => .panic sIdx
-  | [_] => .panic sIdx
-  | v0 :: v1 :: _ =>
-    match key with
-    | .str s _ => .ok (Dict.set named s (.dict (mkDest key v0 v1)))
-    | _ => .panic sKey
+/-- `insert_destination`: pairs with a non-string key or fewer than two array elements are skipped -/
+def insertDest (key : Obj) (val : List Obj) (named : Named) : Named :=
+  match key, val with
+  | .str s _, v0 :: v1 :: _ => Dict.set named s (.dict (mkDest key v0 v1))
+  | _, _ => named
 
-/-- `dict.get(b"D").as_ref().unwrap().as_array()?` then `insertDest` -/
-def insertDestFromDict (sD sIdx sKey : String) (key : Obj) (d : Dict) (named : Named) : Outcome Named :=
+/-- `if let Ok(val) = dict.get(b"D") { insert_destination(named, key, val.as_array()?) }` -/
+def insertDestFromDict (key : Obj) (d : Dict) (named : Named) : Outcome Named :=
   match d.get K_D with
-  | none => .panic sD
+  | none => .ok named
   | some dv =>
     match dv.asArr with
     | none => E
-    | some val => insertDest sIdx sKey key val named
+    | some val => .ok (insertDest key val named)
 
 /-- one (key, value) pair of the `Names` array -/
 def destOfPair (os : Objects) (key val : Obj) (named : Named) : Outcome Named :=
   match val with
   | .ref a b =>
     match getDictionary os (a, b) with
-    | some d => insertDestFromDict S_DEST_REFDICT_D S_DEST_REFDICT_IDX S_DEST_REFDICT_KEY key d named
+    | some d => insertDestFromDict key d named
     | none =>
       match getObject os (a, b) with
-      | some (.arr v) => insertDest S_DEST_REFARR_IDX S_DEST_REFARR_KEY key v named
+      | some (.arr v) => .ok (insertDest key v named)
       | _ => .ok named
-  | .dict d => insertDestFromDict S_DEST_DICT_D S_DEST_DICT_IDX S_DEST_DICT_KEY key d named
+  | .dict d => insertDestFromDict key d named
   | _ => .ok named
 
 /-- the `Names` loop: consumes (key, value) pairs -/
@@ -106,9 +103,8 @@ def buildDirect (dest title : Obj) (named : Named) : Outcome (Option Outline × 
   match dest with
   | .arr a =>
     match a with
-    | [] => .panic S_OUTLINE_0
-    | [_] => .panic S_OUTLINE_1
     | p :: t :: _ => .ok (some (.dest (mkDest title p t)), named)
+    | _ => E
   | .str key _ =>
     match named.get key with
     | some (.dict dd) =>
@@ -176,39 +172,63 @@ def pushOutline (r : Outcome (Option Outline × Named)) (acc : List Outline) (na
   | _ => (acc, named)
 
 /-- `if let Ok(first) = node.get(b"First") { … self.get_outlines(Some(first.clone()), Some(vec![]), named)? … }`;
-`walk` is the recursive call -/
-def firstStep (walk : Dict → List Outline → Named → WalkRes) (os : Objects) (node : Dict)
-    (st : List Outline × Named) : WalkRes :=
+`sub` is the recursive call on the `First` object -/
+def firstStep (sub : Obj → Named → WalkRes) (node : Dict) (st : List Outline × Named) : WalkRes :=
   match node.get K_First with
   | none => some (.ok st)
   | some first =>
-    match outlineNode os first with
-    | none => some E
-    | some sub =>
-      match walk sub [] st.2 with
-      | some (.ok (subs, nm)) => some (.ok (if subs.isEmpty then st.1 else st.1 ++ [.sub subs], nm))
-      | other => other
+    match sub first st.2 with
+    | some (.ok (subs, nm)) => some (.ok (if subs.isEmpty then st.1 else st.1 ++ [.sub subs], nm))
+    | other => other
 
-/-- `node = match self.get_dict_in_dict(node, b"Next") { Ok(n) => n, Err(_) => break }`;
-`walk` is the next loop iteration -/
-def nextStep (walk : Dict → List Outline → Named → WalkRes) (os : Objects) (node : Dict) (r : WalkRes) : WalkRes :=
-  match r with
-  | some (.ok (acc2, named2)) =>
-    match getDictInDict os node K_Next with
-    | some next => walk next acc2 named2
-    | none => some (.ok (acc2, named2))
-  | other => other
+theorem Dict.sizeOf_get_lt {d : Dict} {k : Bytes} {v : Obj} (h : d.get k = some v) : sizeOf v < sizeOf d := by
+  induction d with
+  | nil => simp [Dict.get] at h
+  | cons p rest ih =>
+    obtain ⟨k', v'⟩ := p
+    unfold Dict.get at h
+    split at h
+    · cases h; simp; omega
+    · have := ih h; simp; omega
 
-/-- the body of `get_outlines` after the node has been resolved: the `loop` over `Next` and the
-recursion over `First`, both UNGUARDED in the code; fuel counts loop iterations and nesting. -/
+/-- the `loop` of `get_outlines`: one iteration per outline item of a level, following `Next`.
+`seen` is the `seen_next` set of the code; no fuel: a reference either was seen (→ `Err`), is
+dangling / not a dictionary (→ `break`), or enlarges `seen` by an existing object; an inline
+`Next` dictionary is a strict sub-term of the current node. -/
+def nextLoop (os : Objects) (sub : Obj → Named → WalkRes) (node : Dict) (acc : List Outline)
+    (named : Named) (seen : List ObjId) : WalkRes :=
+  match getOutline os node named with
+  | .panic s => some (.panic s)
+  | r =>
+    match firstStep sub node (pushOutline r acc named) with
+    | some (.ok (acc2, named2)) =>
+      match hn : node.get K_Next with
+      | some (.ref a b) =>
+        if hs : (a, b) ∈ seen then some E
+        else
+          match hd : getDictionary os (a, b) with
+          | some next => nextLoop os sub next acc2 named2 ((a, b) :: seen)
+          | none => some (.ok (acc2, named2))
+      | some (.dict d) => nextLoop os sub d acc2 named2 seen
+      | _ => some (.ok (acc2, named2))
+    | other => other
+termination_by (unseen os seen, sizeOf node)
+decreasing_by
+  · obtain ⟨o, hm⟩ := getDictionary_mem hd
+    exact Prod.Lex.left _ _ (unseen_lt os seen (a, b) o hm hs)
+  · apply Prod.Lex.right
+    have := Dict.sizeOf_get_lt hn
+    simp at this; omega
+
+/-- `get_outlines` after the node has been resolved. The recursion over `First` is UNGUARDED in
+the code: `fuel` bounds its nesting depth only (the `Next` loop needs none). -/
 def walkOutlines (os : Objects) : Nat → Dict → List Outline → Named → WalkRes
   | 0, _, _, _ => none
   | fuel + 1, node, acc, named =>
-    match getOutline os node named with
-    | .panic s => some (.panic s)
-    | r =>
-      nextStep (walkOutlines os fuel) os node
-        (firstStep (walkOutlines os fuel) os node (pushOutline r acc named))
+    nextLoop os (fun first nm =>
+      match outlineNode os first with
+      | none => some E
+      | some sub => walkOutlines os fuel sub [] nm) node acc named []
 
 /-- the destination name tree `get_outlines` loads first -/
 def destTree (os : Objects) (cat : Dict) : Option Dict :=
@@ -294,4 +314,4 @@ def getToc (memMax : Nat) (trailer : Dict) (os : Objects) (fuel : Nat) :
           | none => acc
           | some n => if tocTitleBad p.1 then (acc.1, acc.2 + 1) else (acc.1 ++ [(p.2.2, n)], acc.2)) ([], 0)))
 
-end Lopdf
+end Lopdf.Q13
